@@ -32,7 +32,7 @@ RULE = (
 ASSUMPTIONS = ["lag() excluded (defined across rows); follow-up rows are training rows so that raise-mode splines stay in range"]
 
 NUM = ["x", "y", "p", "body mass", "body+mass"]
-CAT = ["A", "B", "S", "K"]  # K: an object column of keys that compare equal across types (1, 1.0, True) or are missing
+CAT = ["A", "B", "S", "K", "ward:bed"]  # K: an object column of keys that compare equal across types (1, 1.0, True) or are missing
 
 
 def tnum(rng, v):
@@ -65,6 +65,9 @@ def tnum(rng, v):
 
 
 def tcat(rng, v, levels):
+    if not v.isidentifier():  # a text column whose name holds a ':' (only referable through backticks)
+        q = f"`{v}`"
+        return rng.choice([(q, "bare_qc"), (f"C({q})", "C_qc"), (f"C({q}, contr.sum)", "Csum_qc"), (f"C({q}, contr.treatment(base='{levels[-1]}'))", "Cbase_qc")])
     if v == "K":
         return rng.choice([(f"hashed(K, levels={k})", "hashed_mixed") for k in (3, 5, 11)])
     opts = [
@@ -95,13 +98,14 @@ def gen_case(rng: random.Random, tier: str) -> dict:
         ["A", {"kind": "cat", "categories": lvA, "values": catvals(lvA)}],
         ["B", {"kind": "cat", "categories": rng.sample(lvB, 2), "values": catvals(lvB)}],
         ["S", {"kind": "text", "dtype": rng.choice(["object", "str"]), "values": catvals(lvS)}],
+        ["ward:bed", {"kind": "text", "dtype": "object", "values": catvals(["w1:b1", "w1:b2", "w2:b1"])}],
         ["K", {"kind": "mixed", "values": [rng.choice([1, 1.0, True, "1", 7, 7.0, "k", None, 0, False, 0.0]) for _ in range(n)]}],
     ], "index": None}
     # a plain column whose name is what the quoted names sanitize to: present at fit time, in follow-ups, both or neither
     plain = rng.choice(["never", "never", "fit", "follow", "both"])
     if plain in ("fit", "both"):
         frame["cols"].append(["body_mass", {"kind": "num", "dtype": "float64", "values": [round(rng.gauss(1, 1), 3) for _ in range(n)]}])
-    levels = {"A": lvA, "B": lvB, "S": lvS, "K": []}
+    levels = {"A": lvA, "B": lvB, "S": lvS, "K": [], "ward:bed": ["w1:b1", "w1:b2", "w2:b1"]}
     enc, kinds = {}, {}
     for v in NUM:
         enc[v], kinds[v] = tnum(rng, v)
